@@ -59,6 +59,7 @@ pub fn run_scenario(sc: &Scenario) -> RunReport {
             let mut report = rt.block_on(async {
                 match sc.world.as_str() {
                     "cluster" => Cluster::new(&sc, &dir2).run().await,
+                    "rsender" => crate::rsender::run(&sc).await,
                     "puppet" => crate::puppet::Puppet::new(&sc, &dir2).run().await,
                     other => RunReport { harness_error: Some(format!("unknown world {}", other)), ..Default::default() },
                 }
